@@ -1307,3 +1307,145 @@ Proof.
   - eapply raw_complete_free; eauto.
   - eapply raw_progress; eauto.
 Qed.
+
+(* ------------------------------------------------------------------------------------------ *)
+(* D. lock identity across re-opens                                                            *)
+(* ------------------------------------------------------------------------------------------ *)
+Definition count_hold (l : list ost) : nat := length (filter is_hold l).
+Definition hold1 (s : ost) : nat := if is_hold s then 1 else 0.
+Definition gen0 (s : ost) : Prop := match s with OWait g | OHold g => g = 0 | _ => True end.
+
+Lemma count_hold_upd : forall l c s s', nth_error l c = Some s ->
+  count_hold (upd c s' l) + hold1 s = count_hold l + hold1 s'.
+Proof.
+  induction l as [|x l IH]; intros c s s' H.
+  - destruct c; discriminate.
+  - destruct c as [|c]; simpl in H.
+    + inversion H; subst. unfold count_hold, hold1. simpl.
+      destruct (is_hold s), (is_hold s'); simpl; lia.
+    + specialize (IH c s s' H). unfold count_hold in *. simpl.
+      destruct (is_hold x); simpl; lia.
+Qed.
+
+Lemma gen0_upd : forall l c s', Forall gen0 l -> gen0 s' -> Forall gen0 (upd c s' l).
+Proof.
+  induction l as [|x l IH]; intros c s' F G; simpl.
+  - destruct c; constructor.
+  - inversion F; subst. destruct c; constructor; auto.
+Qed.
+
+Lemma no_holder_count : forall l, Forall gen0 l -> existsb (holds_obj 0) l = false -> count_hold l = 0.
+Proof.
+  induction l as [|x l IH]; intros F E; [reflexivity|].
+  inversion F; subst. simpl in E. apply Bool.orb_false_iff in E. destruct E as [E1 E2].
+  unfold count_hold in *. simpl. destruct x; simpl in *; auto.
+  subst. discriminate.
+Qed.
+
+Lemma nth_gen0 : forall l c s, Forall gen0 l -> nth_error l c = Some s -> gen0 s.
+Proof. intros l c s F H. rewrite Forall_forall in F. apply F. eapply nth_error_In; eauto. Qed.
+
+Definition oinv (cf : ocfg) : Prop := o_cur cf = 0 /\ Forall gen0 (o_sts cf) /\ count_hold (o_sts cf) <= 1.
+
+Lemma oinit_inv : forall n, oinv (oinit n).
+Proof.
+  intro n. unfold oinv, oinit. simpl. split; [reflexivity|]. split.
+  - induction n; simpl; constructor; simpl; auto.
+  - induction n; simpl; auto.
+Qed.
+
+Lemma ostep_inv : forall cf e cf', oinv cf -> ostep_fn false cf e = Some cf' -> oinv cf'.
+Proof.
+  intros cf e cf' [C [G H]] S. destruct e as [c|c|c|c|c|]; simpl in S.
+  - destruct (nth_error (o_sts cf) c) as [[| | |]|] eqn:N; try discriminate. inversion S; subst; clear S.
+    unfold oinv; simpl. split; [assumption|]. split.
+    + apply gen0_upd; auto.
+    + pose proof (count_hold_upd _ _ _ (OWait (o_cur cf)) N) as K. unfold hold1 in K; simpl in K. lia.
+  - destruct (nth_error (o_sts cf) c) as [[|g|g|]|] eqn:N; try discriminate.
+    destruct (existsb (holds_obj g) (o_sts cf)) eqn:X; try discriminate. inversion S; subst; clear S.
+    pose proof (nth_gen0 _ _ _ G N) as G0. simpl in G0. subst g.
+    unfold oinv; simpl. split; [assumption|]. split.
+    + apply gen0_upd; simpl; auto.
+    + pose proof (count_hold_upd _ _ _ (OHold 0) N) as K. unfold hold1 in K; simpl in K.
+      rewrite (no_holder_count _ G X) in K. lia.
+  - destruct (nth_error (o_sts cf) c) as [[| | |]|]; try discriminate. inversion S; subst. repeat split; assumption.
+  - destruct (nth_error (o_sts cf) c) as [[| |g|]|] eqn:N; try discriminate. inversion S; subst; clear S.
+    unfold oinv; simpl. split; [assumption|]. split.
+    + apply gen0_upd; simpl; auto.
+    + pose proof (count_hold_upd _ _ _ OEnded N) as K. unfold hold1 in K; simpl in K. lia.
+  - destruct (nth_error (o_sts cf) c) as [[| | |]|] eqn:N; try discriminate. inversion S; subst; clear S.
+    unfold oinv; simpl. split; [assumption|]. split.
+    + apply gen0_upd; simpl; auto.
+    + pose proof (count_hold_upd _ _ _ OIdle N) as K. unfold hold1 in K; simpl in K. lia.
+  - inversion S; subst. repeat split; assumption.
+Qed.
+
+Lemma oreplay_inv : forall tr cf cf', oinv cf -> oreplay false cf tr = Some cf' -> oinv cf'.
+Proof.
+  induction tr as [|e tr IH]; intros cf cf' I R; simpl in R.
+  - inversion R; subst; assumption.
+  - destruct (ostep_fn false cf e) as [c1|] eqn:S; try discriminate.
+    eapply IH; [eapply ostep_inv; eauto | eassumption].
+Qed.
+
+Lemma oreplay_app : forall rc tr1 tr2 cf cf', oreplay rc cf (tr1 ++ tr2) = Some cf' ->
+  exists c1, oreplay rc cf tr1 = Some c1 /\ oreplay rc c1 tr2 = Some cf'.
+Proof.
+  induction tr1 as [|e tr1 IH]; intros tr2 cf cf' R; simpl in *.
+  - eexists; split; [reflexivity | assumption].
+  - destruct (ostep_fn rc cf e) as [c1|]; try discriminate. apply IH; assumption.
+Qed.
+
+(* open() leaves the lock object alone (rebinds = false): at most one holder in every reachable
+   configuration — through any number of re-opens, failures and retries, for any number of callers *)
+Theorem reopen_exclusive : forall rebinds, rebinds = false ->
+  forall n tr cf, oreplay rebinds (oinit n) tr = Some cf -> holders cf <= 1.
+Proof.
+  intros rb E n tr cf R. subst rb.
+  destruct (oreplay_inv _ _ _ (oinit_inv n) R) as [_ [_ H]]. exact H.
+Qed.
+
+(* ... and a transport event of c happens only while c is that one holder *)
+Theorem reopen_io_by_holder : forall rebinds, rebinds = false ->
+  forall n pre c post cf, oreplay rebinds (oinit n) (pre ++ OIo c :: post) = Some cf ->
+  exists cf' g, oreplay rebinds (oinit n) pre = Some cf' /\ nth_error (o_sts cf') c = Some (OHold g) /\
+                holders cf' = 1.
+Proof.
+  intros rb E n pre c post cf R. subst rb.
+  destruct (oreplay_app _ _ _ _ _ R) as [c1 [R1 R2]]. simpl in R2.
+  destruct (nth_error (o_sts c1) c) as [[| |g|]|] eqn:N; try discriminate.
+  exists c1, g. split; [assumption|]. split; [exact N|].
+  destruct (oreplay_inv _ _ _ (oinit_inv n) R1) as [_ [_ H]].
+  pose proof (count_hold_upd _ _ _ OEnded N) as K. unfold hold1 in K; simpl in K.
+  unfold holders. unfold count_hold in *. lia.
+Qed.
+
+(* the premise is satisfiable by a non-trivial run: a failure, a re-open, a retry with a caller queued *)
+Example reopen_exclusive_nonvacuous :
+  exists cf, oreplay false (oinit 2)
+               [OOpen; OArrive 0; OAcq 0; OIo 0; OArrive 1; ORel 0; OOpen; OAgain 0; OArrive 0; OAcq 1; OIo 1; ORel 1; OAcq 0; OIo 0]
+             = Some cf /\ holders cf = 1.
+Proof. eexists. split; reflexivity. Qed.
+
+(* a lock object recreated by open(): the caller queued on the old object and the retry on the new
+   one hold "the" channel lock at the same time, and both touch the transport *)
+Theorem reopen_exclusive_refuted : ~ reopen_exclusive_full.
+Proof.
+  intro F.
+  specialize (F true 2 [OArrive 0; OAcq 0; OIo 0; OArrive 1; ORel 0; OOpen; OAgain 0; OArrive 0; OAcq 0; OAcq 1; OIo 0; OIo 1]
+                (mkO 1 [OHold 1; OHold 0]) eq_refl).
+  unfold holders in F. simpl in F. lia.
+Qed.
+
+(* the form props/C19.v instantiates with the generated `gen_lock_rebound_*` *)
+Theorem reopen_mutual_exclusion : forall rebinds, rebinds = false ->
+  forall n tr cf, oreplay rebinds (oinit n) tr = Some cf ->
+  holders cf <= 1 /\
+  forall pre c post, tr = pre ++ OIo c :: post ->
+    exists cf' g, oreplay rebinds (oinit n) pre = Some cf' /\
+                  nth_error (o_sts cf') c = Some (OHold g) /\ holders cf' = 1.
+Proof.
+  intros rb E n tr cf R. split.
+  - eapply reopen_exclusive; eauto.
+  - intros pre c post T. subst tr. eapply reopen_io_by_holder; eauto.
+Qed.
